@@ -611,7 +611,18 @@ def k_shift(args, res, exc):
     t = O.pow(O.conv(2), n)
     l = O.mul(a, t); r = O.div(a, t)
     # "mixing in integers equals converting first": a * 2^n (the int) is a * F(2^n); recorded to show the three-way disagreement
-    return _cmp(res, dict(lsh=l, rsh=r, round=a if t != 0 else RZ, mul_int=O.mul(a, O.conv(1 << n)), x=a), exc)
+    exp = dict(lsh=l, rsh=r, round=a if t != 0 else RZ, mul_int=O.mul(a, O.conv(1 << n)), x=a)
+    msg = _cmp(res, exp, exc)
+    if msg is not True and exc is None and O.kind == 'oddext' and isinstance(res, dict):
+        # listed known finding, delimited exactly by what the code computes instead: a << n == a * X^n (X the element encoded by the integer p)
+        # and a >> n == a / (element encoded by the integer 2^n); operand unchanged, int mixing as specified.  Anything else is a different violation
+        X = O.conv(O.p); e2 = O.conv(1 << n)
+        try:
+            if (res.get('lsh') == O.mul(a, O.pow(X, n)) and (e2 == 0 or res.get('rsh') == O.div(a, e2)) and res.get('x') == a and res.get('mul_int') == exp['mul_int']):
+                return ('class', 'lshift-times-X^n/rshift-by-element-encoded-by-2^n', msg)
+        except Exception:
+            pass
+    return msg
 
 
 # ---- in-place shifts agree with the binary shifts (whatever those compute: entry of its own, so that a defect in the meaning
@@ -938,7 +949,10 @@ def k_fpr(args, res, exc):
     if p.bit_length() < l: return f'bit length {p.bit_length()} < {l}'
     if n <= 2 and p.bit_length() != l: return f'bit length {p.bit_length()} != {l} although n <= 2'
     if blum and p % 4 != 3: return f'p = {p} is not 3 mod 4'
-    if n2 < n: return f'returned order n = {n2} below the requested {n}'
+    if n2 < n:
+        msg = f'returned order n = {n2} below the requested {n}'
+        # listed known finding, delimited exactly: l <= 2, blum, n > 2 gives the fixed triple (3, 2, 2)
+        return ('class', 'l<=2-blum-n>2-returns-(3,2,2)', msg) if (l <= 2 and blum and n > 2 and res == (3, 2, 2)) else msg
     if not 0 < w < p: return f'w = {w} not in (0, p)'
     if n2 == 1: return w == 1 or f'n = 1 but w = {w}'
     if (p - 1) % n2 != 0: return f'n = {n2} does not divide p - 1'
